@@ -105,7 +105,6 @@ func c20PacerMTUCfg(reno bool, initPkts int, dq, dt int) func(bool) *c20Cfg {
 		}
 		if th {
 			c.depth = dt
-			c.maxMTU = 2
 		}
 		return c
 	}
